@@ -172,8 +172,14 @@ def r3_best_memories(ctx):
                 table = {"mahf::state::State::populations": Sym("populations"), "mahf::state::common::Populations::current": Vec("cur", borrowed=True),
                          "mahf::state::registry::StateRegistry::borrow_value_mut": bv, "mahf::state::registry::StateRegistry::try_borrow_value_mut": lambda i, e, f, a: ok(bv(i, e, f, a))}
                 it = install(Interp(fn.body, chain(mk_oracle(table), coll_oracle, std_oracle), [Sym("self"), Sym("problem"), Sym("state")], facts=F, inline=c07.INLINE, max_visits=12))
+                # the framework-wide best-so-far may stem from a phase before the swarm existed: it is not a swarm member
+                foreign = Agg("adt", c07.IND, "Individual", [Sym("s:foreign"), some(Sym("o:foreign"))])
+                table["mahf::state::State::best_individual"] = some(foreign)
+                it = install(Interp(fn.body, chain(mk_oracle(table), coll_oracle, std_oracle), [Sym("self"), Sym("problem"), Sym("state")], facts=F, inline=c07.INLINE, max_visits=12))
                 it.extra_env = {home: some(c07.ind(size)) if has_best else NONE}
-                it.init_state = {"rank": {"o:%d" % i: r for i, r in enumerate(order)}, "next_vec": 0, "heap": {"cur": tuple(c07.ind(i) for i in range(size))}}
+                rk = {"o:%d" % i: r for i, r in enumerate(order)}
+                rk["o:foreign"] = -1
+                it.init_state = {"rank": rk, "next_vec": 0, "heap": {"cur": tuple(c07.ind(i) for i in range(size))}}
                 for p in it.run():
                     if p.end != "return":
                         bad.append((has_best, list(order), "does not return (%s)" % p.end))
@@ -249,6 +255,7 @@ def r5_linear(ctx):
 
 
 def run(ctx):
+    ctx.guard("C18.K17", "constructor fidelity", lambda: __import__("ctor").check_for(ctx, "C18", 27))
     ctx.guard("C18.R1", "velocity update", lambda: r1_velocity_update(ctx))
     ctx.guard("C18.R3", "best memories", lambda: r3_best_memories(ctx))
     ctx.guard("C18.R5", "inertia weight schedule", lambda: r5_linear(ctx))
